@@ -199,6 +199,23 @@ func genC11(tier string, rng *Rng) {
 			add("cancel-consumer-slow", &Scenario{Cancel: tm[1], RecvFrom: tm[2], Conns: []ConnScript{cs}})
 		}
 	}
+	// ---- a listen-only client (msgsToPanel == nil): cancellation, loss and reconnect work as for any other
+	// (seed C11-9: the writer goroutine, which is also what watches the context on an established
+	// connection, quits at once when there is nothing to write)
+	for _, asc := range []bool{false, true} {
+		cs, lost, after := goodConn(1, 2), goodConn(1), goodConn(3)
+		if asc {
+			cs, lost, after = goodAscConn("HWC#1=Down", "HWC#2=Up"), goodAscConn("HWC#1=Down"), goodAscConn("HWC#3=Down")
+		}
+		add("listen-only-cancel-idle", &Scenario{Cancel: 900, NilToPanel: true, Conns: []ConnScript{cs}})
+		lost.End, lost.EndT = "close", 300
+		redial := 1300
+		if asc {
+			redial = 2300
+		}
+		add("listen-only-loss-reconnect", &Scenario{Cancel: redial + 800, NilToPanel: true, Conns: []ConnScript{lost, after}})
+		add("listen-only-cancel-in-probe", &Scenario{Cancel: 700, NilToPanel: true, Conns: []ConnScript{{End: "none"}}})
+	}
 	// ---- submissions while the connection is dying: the panel closes completely (writes now fail with
 	// EPIPE / RST) and the application keeps submitting during the ASCII end-of-stream pause and during the
 	// retry wait; a failed write is not a cancellation: disconnect(false), reconnect after the period,
